@@ -140,6 +140,11 @@ def instantiations(sides):
             ("signed", '"a" / BitsInteger(3, signed=True), "b" / BitsInteger(13, signed=True)'),
             ("swapped-bytewise", '"a" / BitsInteger(16, swapped=True), "b" / Bytewise(Int16ul), "c" / Octet'),
             ("anonymous", 'Padding(4), "x" / Nibble'),
+            # members given as keywords, and positional and keyword members mixed (declaration order: positional first)
+            ("keywords", 'a=BitsInteger(3), b=BitsInteger(5)'),
+            ("mixed", '"a" / BitsInteger(3), b=BitsInteger(5)'),
+            ("mixed-4", '"a" / Flag, "b" / BitsInteger(6, signed=True), c=Flag, d=Octet'),
+            ("mixed-anonymous", 'Padding(2), "a" / BitsInteger(2), b=BitsInteger(12, signed=True)'),
         ]
         for label, members in sets:
             add(label, {}, ["BitStruct(%s)" % members, sides[1].replace("...", members)])
@@ -342,6 +347,8 @@ def fixed_table():
         t.append(("operator a + b", "right=" + x, ["'h' / Byte + %s" % x, "Struct('h' / Byte, %s)" % x], {}))
         t.append(("operator a + b", "left=" + x, ["%s + 't' / Byte" % x, "Struct(%s, 't' / Byte)" % x], {}))
     t.append(("AlignedStruct docstring", "", ["AlignedStruct(4, 'a' / Int8ub, 'b' / Int16ub)", "Struct('a' / Aligned(4, Int8ub), 'b' / Aligned(4, Int16ub))"], {}))
+    t.append(("AlignedStruct docstring", "mixed", ["AlignedStruct(4, 'a' / Int8ub, b=Int16ub, c=Int8ub)", "Struct('a' / Aligned(4, Int8ub), b=Aligned(4, Int16ub), c=Aligned(4, Int8ub))"], {}))
+    t.append(("AlignedStruct docstring", "keywords", ["AlignedStruct(2, a=Int8ub, b=Int24ub)", "Struct(a=Aligned(2, Int8ub), b=Aligned(2, Int24ub))"], {}))
     return t
 
 
